@@ -205,6 +205,10 @@ def harness_dir():
     return d, os.path.join(CACHE, "cargo" + tag)
 
 
+class HarnessBuildError(RuntimeError):
+    """the harness (which drives the implementation through its public API) does not build against the tree"""
+
+
 def build_harness(release=False, timeout=2400):
     with Lock("cargo"):
         d, target = harness_dir()
@@ -217,7 +221,7 @@ def build_harness(release=False, timeout=2400):
         cmd = ["cargo", "build", "--offline", "--quiet"] + (["--release"] if release else [])
         rc, out = sh(cmd, cwd=d, timeout=timeout, env=env)
         if rc != 0:
-            raise RuntimeError("cargo build failed:\n" + out[-4000:])
+            raise HarnessBuildError("cargo build failed:\n" + out[-6000:])
         return os.path.join(target, "release" if release else "debug", "specs-harness")
 
 
